@@ -17,21 +17,25 @@ theorem C10_quiet_table : ∀ s, s ∈ quiet ↔ s ∈ [14, 23, 17, 29, 26, 27] 
 /-- only SIGINT is transparent, and it is not quiet -/
 theorem C10_transparent_table : transparent = [SIGINT] ∧ SIGINT ∉ quiet := by decide
 
-/-! ## witnesses of the defects of the unchanged code (replayed on the real code: corpus/C10/*.req) -/
+/-! ## witnesses (replayed on the real code on every run: corpus/C10/*.req) -/
 
+/-- repaired (fix b8881fa): one SIGALRM sent while stopped, then `stepi` -/
 def wTwice : D := (D.init [.point]).run [.brk, .start, .send true 14, .stepi, .drain]
+/-- repaired (fix 4f1e4d9): SIGALRM and SIGURG pending, `stepi` -/
+def wPanic : D := (D.init [.point]).run [.brk, .start, .send true 14, .send true 23, .stepi, .drain]
+/-- the defect that is left: SIGUSR1 and SIGUSR2 pending at a breakpoint, three `continue`s -/
 def wBurst : D := (D.init [.point]).run [.brk, .start, .send true 10, .send true 12, .cont, .cont, .cont, .drain]
-def wPanic : D := (D.init [.point]).run [.brk, .start, .send true 14, .send true 23, .stepi]
 
-#guard wTwice.k.delivered == [14, 14]
+-- tests: one SIGALRM during `stepi` is handled once; two quiet signals during one `stepi` are both handled, nothing is
+-- reported, the debuggee runs to its end; with two signals queued for the one thread the head is lost
+#guard wTwice.k.delivered == [14]
+#guard wPanic.k.delivered == [14, 23] && wPanic.reported == [] && wPanic.k.stop == .exited
 #guard wBurst.k.delivered == [12] && wBurst.reported == [10, 12, 12]
-#guard wPanic.dead
-
 
 /-! ## what holds of the code as it is, for every script of the debuggee and every command history -/
 
 /-- the invariant behind `C10_sigint_never_delivered` is closed under the tracer's atomic steps -/
-theorem sigintStable : StableB (fun d => SIGINT ∉ d.queue ∧ SIGINT ∉ d.k.delivered) := by
+theorem sigintStable : Stable (fun d => SIGINT ∉ d.queue ∧ SIGINT ∉ d.k.delivered) := by
   have ht : SIGINT ∈ transparent := by decide
   have hq : SIGINT ∉ quiet := by decide
   have key : ∀ (d : D) (m : Mode) (s : Sig), s ≠ SIGINT → SIGINT ∉ d.queue → SIGINT ∉ d.k.delivered →
@@ -45,42 +49,45 @@ theorem sigintStable : StableB (fun d => SIGINT ∉ d.queue ∧ SIGINT ∉ d.k.d
     · rw [← List.count_eq_zero]; rw [hd]
       have : d.k.delivered.count SIGINT = 0 := List.count_eq_zero.mpr h2
       split <;> simp_all
-  refine ⟨?_, ?_, ?_, ?_, ?_, ?_, ?_⟩
-  · intro d d' hk hq' h; rw [hk, hq']; exact h
-  · intro d m b h; exact key _ m 0 (by decide) h.1 h.2
+  refine ⟨?_, ?_, ?_, ?_, ?_, ?_, ?_, ?_⟩
+  · intro d d' hk hq' _ _ h; rw [hk, hq']; exact h
+  · intro d h _; exact key _ .cont 0 (by decide) h.1 h.2
+  · intro d m h _; exact key _ m 0 (by decide) h.1 h.2
   · intro d s h hq'
     have hs : s ≠ SIGINT := by intro e; apply h.1; rw [hq', e]; simp
     exact key _ .cont s hs (by simp) h.2
-  · intro d a h ha _
+  · intro d q0 a h ha hq'
     have hs : a ≠ SIGINT := by intro e; exact hq (e ▸ ha)
-    exact key d .step a hs h.1 h.2
+    refine key _ .step a hs ?_ h.2
+    intro hm; apply h.1; rw [hq']; exact List.mem_append_left _ hm
   · intro d s s' rest h hq'
     refine ⟨?_, h.2⟩
     intro hm; apply h.1; rw [hq']; exact List.mem_cons_of_mem _ hm
-  · intro d h
-    refine ⟨h.1, ?_⟩
-    have := (K.resume_spec d.k .sysc 0 d.bpOn).1
-    simp only [D.kres_k, this]; simpa using h.2
-  · intro d p s h
+  · intro d p s h _
     exact ⟨h.1, by simpa [(K.send_fields d.k p s).1] using h.2⟩
+  · intro d s h _; exact h
 
 /-- **SIGINT stops the program without being delivered**: for every script and every command history the handler
 log of the debuggee never contains SIGINT (no resume request ever carries it). -/
 theorem C10_sigint_never_delivered (script : List PEv) (cmds : List Cmd) :
     SIGINT ∉ ((D.init script).run cmds).k.delivered :=
-  (D.run_stable sigintStable.toStable cmds (D.init script) (by simp [D.init])).2
+  (D.run_holds sigintStable script cmds (by simp [D.init])).2
 
 example : wTwice.k.arrived = [14] ∧ SIGINT ∉ wTwice.k.delivered := by decide
 
-/-- closure of "deliveries + queued instances of a non-quiet signal never exceed its arrivals" -/
-theorem noDupStable (x : Sig) (hx : x ∉ quiet) :
-    StableB (fun d => d.k.delivered.count x + d.queue.count x ≤ d.k.arrived.count x) := by
-  refine ⟨?_, ?_, ?_, ?_, ?_, ?_, ?_⟩
-  · intro d d' hk hq' h; rw [hk, hq']; exact h
-  · intro d m b h
-    obtain ⟨hd, δ, _, _, ha, hqc⟩ := D.kp_counts { d with bpOn := b } m 0 x
+/-- closure of "deliveries + queued instances of a signal never exceed its arrivals" -/
+theorem noDupStable (x : Sig) :
+    Stable (fun d => d.k.delivered.count x + d.queue.count x ≤ d.k.arrived.count x) := by
+  have step0 : ∀ (d : D) (m : Mode), d.k.delivered.count x + d.queue.count x ≤ d.k.arrived.count x →
+      (d.kp m 0).1.k.delivered.count x + (d.kp m 0).1.queue.count x ≤ (d.kp m 0).1.k.arrived.count x := by
+    intro d m h
+    obtain ⟨hd, δ, _, _, ha, hqc⟩ := D.kp_counts d m 0 x
     simp only [or_true, if_true, Nat.add_zero] at hd
-    rw [hd, ha, hqc]; simp only []; split <;> omega
+    rw [hd, ha, hqc]; split <;> omega
+  refine ⟨?_, ?_, ?_, ?_, ?_, ?_, ?_, ?_⟩
+  · intro d d' hk hq' _ _ h; rw [hk, hq']; exact h
+  · intro d h _; exact step0 d .cont h
+  · intro d m h _; exact step0 d m h
   · intro d s h hq'
     obtain ⟨hd, δ, _, _, ha, hqc⟩ := D.kp_counts { d with queue := [] } .cont s x
     rw [hd, ha, hqc]
@@ -89,193 +96,111 @@ theorem noDupStable (x : Sig) (hx : x ∉ quiet) :
     have : (if s = x then 1 else 0) = List.count x [s] := by
       simp [List.count_singleton]
     split <;> split <;> (try split) <;> simp_all <;> omega
-  · intro d a h ha _
-    have hax : a ≠ x := fun e => hx (e ▸ ha)
-    obtain ⟨hd, δ, _, _, har, hqc⟩ := D.kp_counts d .step a x
-    rw [hd, har, hqc]; simp only [hax, if_false]
-    split <;> split <;> omega
+  · intro d q0 a h _ hq'
+    obtain ⟨hd, δ, _, _, har, hqc⟩ := D.kp_counts { d with queue := q0 } .step a x
+    rw [hd, har, hqc]
+    rw [hq', List.count_append, List.count_singleton] at h
+    simp only [] at *
+    split <;> split <;> (try split) <;> simp_all <;> omega
   · intro d s s' rest h hq'
     simp only []
     rw [hq'] at h
     have : List.count x (s' :: rest) ≤ List.count x (s :: s' :: rest) := by
       rw [List.count_cons (a := x) (b := s) (l := s' :: rest)]; omega
     omega
-  · intro d h
-    have hs := K.resume_spec d.k .sysc 0 d.bpOn
-    simp only [D.kres_k, D.kres_queue]
-    rw [hs.1]; simp only [or_true, if_true]
-    cases hw : (d.k.resume .sysc 0 d.bpOn).2 with
-    | sigStop a => rw [hs.2.1 a hw, List.count_append]; omega
-    | _ => rw [hs.2.2 (by simp [hw])]; exact h
-  · intro d p s h
+  · intro d p s h _
     simpa [(K.send_fields d.k p s).1, (K.send_fields d.k p s).2.1] using h
+  · intro d s h _; exact h
 
-/-- **a non-quiet signal is never duplicated** (unconditionally, defects included): for every script, every command
-history and every signal outside the quiet table, the debuggee's handler has run at most as often as the signal
-entered a signal-delivery-stop; what is still queued for injection is covered as well. -/
-theorem C10_nonquiet_never_duplicated (script : List PEv) (cmds : List Cmd) (x : Sig) (hx : x ∉ quiet) :
+/-- **a signal is never duplicated** (unconditionally, the remaining defect included): for every script, every command
+history and every signal - quiet or not, arriving during `continue`, `stepi` or the step over a breakpoint - the
+debuggee's handler has run at most as often as the signal entered a signal-delivery-stop; what is still queued for
+injection is covered as well. -/
+theorem C10_never_duplicated (script : List PEv) (cmds : List Cmd) (x : Sig) :
     let d := (D.init script).run cmds
     d.k.delivered.count x + d.queue.count x ≤ d.k.arrived.count x :=
-  D.run_stable (noDupStable x hx).toStable cmds (D.init script) (by simp [D.init])
+  D.run_holds (noDupStable x) script cmds (by simp [D.init])
 
-example : (10 : Sig) ∉ quiet ∧ wBurst.k.arrived.count 10 = 1 := by decide
+example : (14 : Sig) ∈ quiet ∧ wTwice.k.arrived.count 14 = 1 ∧ wTwice.k.delivered.count 14 = 1 := by decide
 
-/-! ## exactly once, under the hypothesis that no signal arrives while `single_step` is waiting -/
+/-! ## quiet signals -/
 
-/-- the named hypothesis: during the whole history no signal-delivery-stop was reported inside `Tracer::single_step`
-(neither during `stepi` nor during the step over a breakpoint that `continue` starts with).  Decidable: it is a
-ghost flag of the run. -/
-def NoSignalInsideStep (script : List PEv) (cmds : List Cmd) : Bool := !((D.init script).run cmds).stepArr
-
-/-- the conservation law: nothing queued twice, nothing owed after exit, and for every non-transparent signal
-handler runs + queued instances = signal-delivery-stops -/
-def Clean (d : D) : Prop :=
-  d.queue.length ≤ 1 ∧ (d.k.stop = .exited → d.queue = []) ∧
-  ∀ x, x ≠ 0 → x ∉ transparent → d.k.delivered.count x + d.queue.count x = d.k.arrived.count x
-
-theorem cleanStable : Stable (fun d => d.stepArr = false → Clean d) := by
-  -- a `PTRACE_CONT` issued with an empty queue (after the optional injection of `s`)
-  have contStep : ∀ (d : D) (s : Sig), d.k.stop ≠ .exited → d.queue = [] →
-      (∀ x, x ≠ 0 → x ∉ transparent → d.k.delivered.count x + (if s = 0 then 0 else if s = x then 1 else 0) = d.k.arrived.count x) →
-      Clean (d.kp .cont s).1 := by
-    intro d s hne hq hc
-    have hst := K.resume_stop d.k .cont s d.bpOn
-    refine ⟨?_, ?_, ?_⟩
-    · cases hw : (d.k.resume .cont s d.bpOn).2 with
-      | sigStop a => rw [D.kp_sig hw]; simp [D.push_queue, hq]; split <;> simp
-      | _ => rw [D.kp_other (by simp [hw])]; simp [hq]
-    · intro hex
-      cases hw : (d.k.resume .cont s d.bpOn).2 with
-      | sigStop a =>
-        have := hst.1 a hw
-        rw [D.kp_k] at hex; rw [this] at hex; cases hex
-      | _ => rw [D.kp_other (by simp [hw])]; simp [hq]
-    · intro x hx0 hx
-      obtain ⟨hd, δ, _, _, ha, hqc⟩ := D.kp_counts d .cont s x
-      rw [hd, ha, hqc]
-      have := hc x hx0 hx
-      simp only [hne, false_or, hx, if_false, hq, List.count_nil] at *
-      split <;> simp_all <;> omega
+theorem quietStable : Stable (fun d => ∀ x ∈ d.reported, x ∉ quiet) := by
   refine ⟨?_, ?_, ?_, ?_, ?_, ?_, ?_, ?_⟩
-  · intro d d' hk hq hs h; rw [hs]; intro hf; have := h hf; unfold Clean at *; rw [hk, hq]; exact this
-  · -- resume, empty queue
-    intro d b h hq hf
-    have hf' : d.stepArr = false := by simpa using hf
-    have hc := h hf'
-    by_cases hex : d.k.stop = .exited
-    · -- nothing happens to an exited debuggee
-      have e : (({ d with bpOn := b } : D).k.resume .cont 0 b) = (d.k, .unmodelled) := by simp [K.resume, hex]
-      have : (({ d with bpOn := b } : D).kp .cont 0).1.k = d.k ∧ (({ d with bpOn := b } : D).kp .cont 0).1.queue = d.queue := by
-        rw [D.kp_other (by intro a; simp [e])]; simp [e]
-      unfold Clean; rw [this.1, this.2]; exact hc
-    · exact contStep { d with bpOn := b } 0 hex hq (fun x hx0 hx => by simpa [hq] using hc.2.2 x hx0 hx)
-  · -- resume, one queued signal
-    intro d s h hq hf
-    have hf' : d.stepArr = false := by simpa using hf
-    have hc := h hf'
-    have hex : d.k.stop ≠ .exited := by intro e; have := hc.2.1 e; rw [hq] at this; cases this
-    refine contStep { d with queue := [] } s hex rfl (fun x hx0 hx => ?_)
-    have := hc.2.2 x hx0 hx
-    rw [hq, List.count_singleton] at this
-    by_cases hs0 : s = 0
-    · subst hs0
-      -- signal number 0 is never queued by the model's callers, but the law still holds: nothing is injected
-      simp only [if_true]
-      have h0 : ¬ (0 : Sig) = x := fun e => hx0 e.symm
-      simp_all
-    · simp only [hs0, if_false]
-      by_cases hsx : s = x <;> simp_all
-  · -- single_step, PTRACE_SINGLESTEP(0)
-    intro d h hf
-    cases hw : (d.kp .step 0).2 with
-    | sigStop a => rw [D.kps_sig hw] at hf; simp at hf
-    | _ =>
-      have hno : ∀ a, (d.kp .step 0).2 ≠ .sigStop a := by simp [hw]
-      rw [D.kps_other hno] at hf ⊢
-      have hf' : d.stepArr = false := by simpa using hf
-      have hc := h hf'
-      have hev : ∀ a, (d.k.resume .step 0 d.bpOn).2 ≠ .sigStop a := by intro a; rw [← D.kp_ev]; exact hno a
-      have hst := K.resume_stop d.k .step 0 d.bpOn
-      have hsp := K.resume_spec d.k .step 0 d.bpOn
-      rw [D.kp_other hev]
-      refine ⟨hc.1, ?_, ?_⟩
-      · intro hex
-        rcases hst.2 hex with e | e
-        · exact hc.2.1 e
-        · cases e
-      · intro x hx0 hx
-        simp only [D.kres_k, D.kres_queue]
-        rw [hsp.1, hsp.2.2 hev]; simpa using hc.2.2 x hx0 hx
-  · -- single_step, quiet injection: only after a signal arrived inside the step
-    intro d a _ _ _ hs hf
-    rw [D.kps_stepArr_true hs] at hf; cases hf
-  · -- two queued signals: excluded by the law
-    intro d s s' rest h hq hf
-    have hc := h hf
-    have := hc.1; rw [hq] at this; simp at this
-  · -- PTRACE_SYSCALL
-    intro d h hf
-    cases hw : (d.kres .sysc 0).2 with
-    | sigStop a => rw [D.ksys_sig hw] at hf; simp at hf
-    | _ =>
-      have hno : ∀ a, (d.kres .sysc 0).2 ≠ .sigStop a := by intro a h'; rw [hw] at h'; cases h'
-      rw [D.ksys_other hno] at hf ⊢
-      have hf' : d.stepArr = false := by simpa using hf
-      have hc := h hf'
-      have hst := K.resume_stop d.k .sysc 0 d.bpOn
-      have hsp := K.resume_spec d.k .sysc 0 d.bpOn
-      refine ⟨hc.1, ?_, ?_⟩
-      · intro hex
-        rcases hst.2 hex with e | e
-        · exact hc.2.1 e
-        · cases e
-      · intro x hx0 hx
-        simp only [D.kres_k, D.kres_queue]
-        rw [hsp.1, hsp.2.2 hno]; simpa using hc.2.2 x hx0 hx
-  · intro d p s h hf
-    have hc := h hf
-    have hs := K.send_fields d.k p s
-    unfold Clean
-    simp only [hs.1, hs.2.1, hs.2.2.1]
-    exact hc
+  · intro d d' _ _ hr _ h; rw [hr]; exact h
+  · intro d h _; simpa using h
+  · intro d m h _; simpa using h
+  · intro d s h _; simpa using h
+  · intro d q0 a h _ _; simpa using h
+  · intro d s s' rest h _; exact h
+  · intro d p s h _; exact h
+  · intro d s h hs x hx
+    simp only [D.report, List.mem_append, List.mem_singleton] at hx
+    rcases hx with hx | hx
+    · exact h x hx
+    · rw [hx]; exact hs
 
-/-- **exactly once, partial**: for every script and every command history in which no signal arrived inside a
-single step, at every prompt and for every signal that is not transparent: handler runs + instances still queued for
+/-- **quiet signals pass straight through** (unconditionally): for every script and every command history no stop is
+ever reported for a quiet signal - neither by `continue` nor by `stepi`, not even when `resume` re-reports a signal out
+of a queue that holds two (no quiet signal ever waits in the queue at a prompt) -/
+theorem C10_quiet_passthrough (script : List PEv) (cmds : List Cmd) :
+    ∀ x ∈ ((D.init script).run cmds).reported, x ∉ quiet :=
+  D.run_holds quietStable script cmds (by simp [D.init])
+
+/-- the former counterexample: SIGUSR1 then SIGALRM arrive during two `stepi`; SIGUSR1 is reported, SIGALRM is not, both are
+handled -/
+example : ((D.init [.point]).run [.brk, .start, .send true 10, .send true 14, .stepi, .stepi, .cont, .drain]).reported = [10] ∧
+    ((D.init [.point]).run [.brk, .start, .send true 10, .send true 14, .stepi, .stepi, .cont, .drain]).k.delivered = [14, 10] := by
+  decide
+
+/-! ## exactly once, as long as no signal is queued for the thread while another one still waits for injection -/
+
+/-- the named hypothesis: during the whole history `apply_new_status` never queued a signal while the queue still held
+one (this needs a signal-delivery-stop inside `Tracer::single_step` - `stepi`, or the step over a breakpoint that
+`continue` starts with - of a thread whose previous, non-quiet signal was reported by a step and is not injected yet).
+Decidable: it is a ghost flag of the run. -/
+def NoPileUp (script : List PEv) (cmds : List Cmd) : Bool := !((D.init script).run cmds).piled
+
+theorem clean_of_noPileUp (script : List PEv) (cmds : List Cmd) (h : NoPileUp script cmds = true) :
+    Clean ((D.init script).run cmds) :=
+  D.run_holds cleanStable script cmds (fun _ => by simp [Clean, D.init]) (by simpa [NoPileUp] using h)
+
+/-- **exactly once, partial**: for every script and every command history in which no signal was queued on top of
+another one, at every prompt and for every signal that is not transparent: handler runs + instances still queued for
 injection = signal-delivery-stops; at most one signal is queued; and once the debuggee has exited every signal that
-entered a signal-delivery-stop was handled exactly once. -/
+entered a signal-delivery-stop was handled exactly once.  Signals that arrive inside a single step are covered. -/
 theorem C10_delivery_once_partial (script : List PEv) (cmds : List Cmd)
-    (h : NoSignalInsideStep script cmds = true) :
+    (h : NoPileUp script cmds = true) :
     let d := (D.init script).run cmds
     (∀ x, x ≠ 0 → x ∉ transparent → d.k.delivered.count x + d.queue.count x = d.k.arrived.count x) ∧
     d.queue.length ≤ 1 ∧
     (d.k.stop = .exited → ∀ x, x ≠ 0 → x ∉ transparent → d.k.delivered.count x = d.k.arrived.count x) := by
-  have hc : Clean ((D.init script).run cmds) :=
-    D.run_stable cleanStable cmds (D.init script) (fun _ => by simp [Clean, D.init])
-      (by simpa [NoSignalInsideStep] using h)
+  have hc := clean_of_noPileUp script cmds h
   refine ⟨hc.2.2, hc.1, fun hex x hx0 hx => ?_⟩
   have := hc.2.2 x hx0 hx
   rw [hc.2.1 hex] at this
   simpa using this
 
-/-- non-vacuity: a history with self-raised and externally sent signals, quiet and non-quiet, a breakpoint, an
-instruction step and a run to the end meets the hypothesis, and three signals are handled -/
-example : NoSignalInsideStep [.point, .raise 10, .kill 14, .point]
-    [.brk, .start, .stepi, .send true 12, .unbrk, .cont, .cont, .cont, .drain] = true ∧
+/-- non-vacuity: a history with self-raised and externally sent signals, quiet and non-quiet, a breakpoint, signals
+arriving inside instruction steps and a run to the end meets the hypothesis, and all four signals are handled -/
+example : NoPileUp [.point, .raise 10, .kill 14, .point]
+    [.brk, .start, .send true 23, .stepi, .send true 12, .stepi, .unbrk, .cont, .cont, .cont, .drain] = true ∧
     ((D.init [.point, .raise 10, .kill 14, .point]).run
-      [.brk, .start, .stepi, .send true 12, .unbrk, .cont, .cont, .cont, .drain]).k.delivered = [12, 10, 14] := by decide
+      [.brk, .start, .send true 23, .stepi, .send true 12, .stepi, .unbrk, .cont, .cont, .cont, .drain]).k.delivered
+        = [23, 12, 10, 14] := by decide
 
 /-- kernel side, for every script and command history: every signal sent (by the debuggee itself or from outside,
 merged sends not counted) has entered a signal-delivery-stop or is still pending - the kernel model loses nothing -/
 theorem C10_sent_arrives_or_pending (script : List PEv) (cmds : List Cmd) (x : Sig) :
     let d := (D.init script).run cmds
     d.k.sent.count x = d.k.arrived.count x + d.k.pp.count x + d.k.sp.count x :=
-  D.run_stable (consStable x).toStable cmds (D.init script) (by simp [D.init, K.Cons])
+  D.run_holds (consStable x) script cmds (by simp [D.init, K.Cons])
 
-/-- **exactly once in terms of the signals sent** (partial): under `NoSignalInsideStep`, at every prompt every signal
-sent is accounted for exactly once - handled by the debuggee, or queued by the tracer for the next resume, or still
-pending in the kernel; never twice, never nowhere -/
+/-- **exactly once in terms of the signals sent** (partial): under `NoPileUp`, at every prompt every signal sent is
+accounted for exactly once - handled by the debuggee, or queued by the tracer for the next resume, or still pending in
+the kernel; never twice, never nowhere -/
 theorem C10_sent_delivered_once_partial (script : List PEv) (cmds : List Cmd)
-    (h : NoSignalInsideStep script cmds = true) (x : Sig) (hx0 : x ≠ 0) (hx : x ∉ transparent) :
+    (h : NoPileUp script cmds = true) (x : Sig) (hx0 : x ≠ 0) (hx : x ∉ transparent) :
     let d := (D.init script).run cmds
     d.k.sent.count x = d.k.delivered.count x + d.queue.count x + d.k.pp.count x + d.k.sp.count x := by
   have h1 := (C10_delivery_once_partial script cmds h).1 x hx0 hx
@@ -283,25 +208,68 @@ theorem C10_sent_delivered_once_partial (script : List PEv) (cmds : List Cmd)
   simp only [] at *
   omega
 
-example : NoSignalInsideStep [.raise 10] [.start, .send true 12, .send false 12] = true ∧
+example : NoPileUp [.raise 10] [.start, .send true 12, .send false 12] = true ∧
     ((D.init [.raise 10]).run [.start, .send true 12, .send false 12]).k.sent = [10, 12, 12] := by decide
+
+/-- the debuggee exits only when no signal is pending -/
+theorem exited_nothing_pending (script : List PEv) (cmds : List Cmd) :
+    let d := (D.init script).run cmds
+    d.k.stop = .exited → d.k.pp = [] ∧ d.k.sp = [] :=
+  D.run_holds exitedStable script cmds (by simp [D.init])
+
+/-- full strength: when the debuggee has exited, every signal other than SIGINT was handled exactly as often as it
+was sent, and SIGINT never (0 is not a signal number) -/
+def C10_delivery_once_full (script : List PEv) (cmds : List Cmd) : Prop :=
+  let d := (D.init script).run cmds
+  d.k.stop = .exited → ∀ x, x ≠ 0 → d.k.delivered.count x = if x ∈ transparent then 0 else d.k.sent.count x
+
+/-- **exactly once at exit, partial**: the full statement holds for every history that meets `NoPileUp` -/
+theorem C10_delivery_once_exit_partial (script : List PEv) (cmds : List Cmd) (h : NoPileUp script cmds = true) :
+    C10_delivery_once_full script cmds := by
+  intro hex x hx0
+  by_cases hx : x ∈ transparent
+  · have ht := C10_transparent_table.1
+    rw [ht] at hx
+    have hx' : x = SIGINT := by simpa using hx
+    subst hx'
+    simp only [ht, List.mem_singleton, if_true]
+    exact List.count_eq_zero.mpr (C10_sigint_never_delivered script cmds)
+  · simp only [hx, if_false]
+    have h1 := (C10_delivery_once_partial script cmds h).2.2 hex x hx0 hx
+    have h2 := C10_sent_arrives_or_pending script cmds x
+    have h3 := exited_nothing_pending script cmds hex
+    simp only [] at h1 h2 h3
+    rw [h2, h3.1, h3.2, h1]; simp
+
+/-- the two repaired witnesses meet the hypothesis and reach the exit: the theorem speaks about them -/
+example : NoPileUp [.point] [.brk, .start, .send true 14, .stepi, .drain] = true ∧ wTwice.k.stop = .exited ∧
+    NoPileUp [.point] [.brk, .start, .send true 14, .send true 23, .stepi, .drain] = true ∧ wPanic.k.stop = .exited := by
+  decide
+
+/-- the defect that is left: SIGUSR1 and SIGUSR2 sent while stopped at a breakpoint, then `continue`s: SIGUSR1 is
+never handled -/
+theorem C10_delivery_lost_counterexample :
+    ¬ C10_delivery_once_full [.point] [.brk, .start, .send true 10, .send true 12, .cont, .cont, .cont, .drain] := by
+  intro h
+  have := h (by decide) 10 (by decide)
+  revert this; decide
 
 /-! ## bursts -/
 
 /-- bursts, full strength: after any history that met the hypothesis, any burst of signals (sent thread- or
 process-directed, in any number and order) interleaved with `continue`s stays within it - wherever the debuggee is stopped -/
 def C10_burst_full (script : List PEv) (cmds burst : List Cmd) : Prop :=
-  (∀ c ∈ burst, burstCmd c = true) → NoSignalInsideStep script cmds = true →
-  NoSignalInsideStep script (cmds ++ burst) = true
+  (∀ c ∈ burst, burstCmd c = true) → NoPileUp script cmds = true →
+  NoPileUp script (cmds ++ burst) = true
 
 /-- **bursts** (partial: no breakpoint is set while the burst is handled): every burst of sends and `continue`s keeps
-`NoSignalInsideStep`, so by `C10_sent_delivered_once_partial` every signal of the burst is accounted for exactly once at
+`NoPileUp`, so by `C10_sent_delivered_once_partial` every signal of the burst is accounted for exactly once at
 every prompt - one signal is injected per resume, none is dropped -/
 theorem C10_burst_partial (script : List PEv) (cmds burst : List Cmd)
     (hbp : ((D.init script).run cmds).bpOn = false) : C10_burst_full script cmds burst := by
   intro hb h
   have := D.run_burst_flags burst ((D.init script).run cmds) hb hbp
-  simp only [NoSignalInsideStep, D.run_append] at *
+  simp only [NoPileUp, D.run_append] at *
   rw [this.1]; exact h
 
 example : C10_burst_full [.raise 1] [.start] [.send true 12, .send true 10, .send false 14, .cont, .cont, .cont] ∧
@@ -314,39 +282,6 @@ theorem C10_burst_counterexample :
     ¬ C10_burst_full [.point] [.brk, .start] [.send true 10, .send true 12, .cont, .cont] := by
   intro h
   have := h (by decide) (by decide)
-  revert this; decide
-
-/-! ## the full statement is false of the unchanged code: kernel-checked witnesses -/
-
-/-- full strength: when the debuggee has exited, every signal other than SIGINT was handled exactly as often as it
-was sent (and SIGINT never) -/
-def C10_delivery_once_full (script : List PEv) (cmds : List Cmd) : Prop :=
-  let d := (D.init script).run cmds
-  d.k.stop = .exited → ∀ x, d.k.delivered.count x = if x ∈ transparent then 0 else d.k.sent.count x
-
-/-- one SIGALRM sent while stopped at a breakpoint, then `stepi`: handled twice -/
-theorem C10_delivery_once_counterexample :
-    ¬ C10_delivery_once_full [.point] [.brk, .start, .send true 14, .stepi, .drain] := by
-  intro h
-  have := h (by decide) 14
-  revert this; decide
-
-/-- SIGUSR1 and SIGUSR2 sent while stopped at a breakpoint, then `continue`s: SIGUSR1 is never handled -/
-theorem C10_delivery_lost_counterexample :
-    ¬ C10_delivery_once_full [.point] [.brk, .start, .send true 10, .send true 12, .cont, .cont, .cont, .drain] := by
-  intro h
-  have := h (by decide) 10
-  revert this; decide
-
-/-- quiet signals pass straight through, full strength: no stop is ever reported for a quiet signal -/
-def C10_quiet_passthrough_full (script : List PEv) (cmds : List Cmd) : Prop :=
-  ∀ x ∈ ((D.init script).run cmds).reported, x ∉ quiet
-
-/-- SIGUSR1 then SIGALRM arrive during two `stepi`; the next `continue` reports a stop for SIGALRM -/
-theorem C10_quiet_passthrough_counterexample :
-    ¬ C10_quiet_passthrough_full [.point] [.brk, .start, .send true 10, .send true 14, .stepi, .stepi, .cont] := by
-  intro h
-  have := h 14 (by decide)
   revert this; decide
 
 end BsVerif.Sig
